@@ -197,12 +197,12 @@ def _forms():
            N(3), N(0), N(0), N(3), N(0), N(0), Op("cm")]
     fm2 = [N(0), N(1), N(0), Op("rg"), N(2), Op("w"), Op("q"), Op("BT"), Nm("F1"), N(20), Op("Tf"), N(2), Op("Tc"), S(b"BA"), Op("Tj"),
            Op("ET"), N(1), N(1), Op("m"), N(4), N(1), Op("l"), Op("S")]
-    fm3 = [Op("BT"), Nm("F1"), N(10), Op("Tf"), S(b"B"), Op("Tj"), Op("ET"), Nm("Fm1"), Op("Do"), Nm("Fm2"), Op("Do"),
+    fm3 = [Op("BT"), Nm("F1"), N(10), Op("Tf"), S(b"B"), Op("Tj"), Op("ET"), Nm("Fm1"), Op("Do"), Nm("Fm3"), Op("Do"), Nm("Fm2"), Op("Do"),
            Op("BT"), Nm("F1"), N(10), Op("Tf"), S(b"A"), Op("Tj"), Op("ET")]
     fm4 = [N(1), N(0), N(0), Op("rg"), Op("BT"), Nm("F1"), N(10), Op("Tf"), S(b"AB"), Op("Tj"), Op("ET")]
     return {"Fm1": {"m": [2, 0, 0, 2, 10, 10], "body": fm1, "own": True, "xo": {}},
             "Fm2": {"m": [1, 0, 0, 1, 0, 0], "body": fm2, "own": False, "xo": {}},
-            "Fm3": {"m": [1, 0, 0, 1, 5, 0], "body": fm3, "own": True, "xo": {"Fm1": "Fm4"}},
+            "Fm3": {"m": [1, 0, 0, 1, 5, 0], "body": fm3, "own": True, "xo": {"Fm1": "Fm4", "Fm3": "Fm4"}},
             "Fm4": {"m": [1, 0, 0, 1, 0, 7], "body": fm4, "own": False, "xo": {}, "page": False}}
 
 
